@@ -58,6 +58,8 @@ pub struct VerifProbe {
     pub has_zero_rtt_keys: bool,
     /// Number of packets authenticated so far
     pub authed_packets: u64,
+    /// Frame blobs queued by `verif_inject_frames` and not yet written into a packet
+    pub inject_queued: usize,
 }
 
 /// Stream accounting snapshot
@@ -178,6 +180,7 @@ impl Connection {
             idle_timeout: self.idle_timeout,
             has_zero_rtt_keys: self.zero_rtt_crypto.is_some(),
             authed_packets: self.total_authed_packets,
+            inject_queued: self.verif_inject.iter().map(|q| q.len()).sum(),
         }
     }
 }
